@@ -2,7 +2,10 @@
 """Regenerates MANIFEST.json from checks.json (claimed checks) + not_applicable.json."""
 import json, os
 root = os.path.dirname(os.path.abspath(__file__))
-checks = json.load(open(os.path.join(root, "checks.json")))
+import subprocess
+checks = json.loads(subprocess.check_output([os.path.join(root, "bin/verif"), "list", "--json"]))
+checks = [c for c in checks if c.get("text")]
+checks.sort(key=lambda c: c["property_id"])
 na = json.load(open(os.path.join(root, "not_applicable.json")))
 props = [json.loads(l) for l in open(os.path.join(root, "properties.jsonl"))]
 ids = [p["id"] for p in props]
@@ -36,7 +39,7 @@ for c in checks:
         "replay_cmd_template": "bin/verif replay {path}",
         "engine": "gosym",
         "level_claimed": {"category": "model_checking", "text": c["text"], "design_ref": f"DESIGN.md §5 {pid}"},
-        "level_note": c["note"],
+        "level_note": c["note"] or "trusted: go/ssa, the interpreter and its listed stubs/intrinsics, the SMT solver; nothing beyond the bounds written to the evidence file",
         "technique": c.get("technique", "bounded symbolic execution of the real go/ssa code + SMT (z3), counter-examples replayed natively"),
     })
 for pid in ids:
